@@ -432,7 +432,13 @@ func (e *Exec) CaseCoq(obs []Obs) string {
 	for _, k := range e.IsoDiff {
 		iso = append(iso, fmt.Sprint(k))
 	}
-	return "mkCase " + e.initCoq() + "\n  " + cList(evs) + "\n  " + cList(os) + "\n  " + cList(hd) + "\n  " + rt + "\n  " + cList(iso)
+	var probes []string
+	if e.RT != nil {
+		for _, pr := range e.RT.Probes {
+			probes = append(probes, fmt.Sprintf("(%s, %s)", e.cMsg(pr.Msg), classCoq(pr.Class)))
+		}
+	}
+	return "mkCase " + e.initCoq() + "\n  " + cList(evs) + "\n  " + cList(os) + "\n  " + cList(hd) + "\n  " + rt + "\n  " + cList(iso) + "\n  " + cList(probes)
 }
 
 // typed events as (kind, tenant, record id); see Exec/Run.v
